@@ -231,7 +231,8 @@ class LCDDocFilter(DocumentFilter):
           region.get_begin() or 0,
           region.get_end(),
           writing_mode,
-          new_display_align
+          new_display_align,
+          region.get_style(StyleProperties.TextAlign) if self.config.preserve_text_align else None
         )
 
       retained_region = retained_regions.get(fingerprint)
